@@ -169,6 +169,17 @@ def check_dedup_wrap(ctx, repo, rule):
                       'wrapped cell, so pairs straddling RA 0/360 are missed' % ('lower' if down else 'upper', src(bound) if bound is not None else src(lp.test)[:50],
                                                                                 'lower' if down else 'upper'),
                   construct='margin loop bound %s' % (src(bound) if bound is not None else src(lp.test)[:50]))
+    # the declination range is widened slice by slice for as long as the margin reaches the next slice (a loop, not a single step:
+    # slices near a clamped pole edge are narrower than the nominal size)
+    steps = [st for st in walk_local(g.node) if isinstance(st, ast.AugAssign) and isinstance(st.target, ast.Name) and try_fold(st.value) == 1
+             and isinstance(st.op, (ast.Add, ast.Sub)) and any(isinstance(x, ast.Subscript) and isinstance(x.value, ast.Attribute) and x.value.attr == 'decBounds'
+                                                                for a in ancestors(st) if isinstance(a, (ast.While, ast.If)) for x in ast.walk(a.test))]
+    for st in steps:
+        holder = next((a for a in ancestors(st) if isinstance(a, (ast.While, ast.If, ast.For))), None)
+        ctx.check(rule, isinstance(holder, ast.While), g, st, 'getbounds: the declination range is widened in a loop (`%s`) while the margin reaches the next slice' % src(st),
+                  msg='getbounds widens the declination range by `%s` at most once (under `%s`, not in a loop): a point whose margin reaches across more than one '
+                      'narrow declination slice is not entered in the farther slices and pairs across them are missed'
+                      % (src(st), src(holder.test)[:60] if holder is not None and hasattr(holder, 'test') else ''), construct='declination margin step ' + src(st))
     for nm in ('raChunkMin', 'raChunkMax'):
         fin = [st for st in walk_local(g.node) if isinstance(st, ast.Assign) and src(st.targets[0]).startswith(nm + '[') and 'floor' not in src(st.value)
                and not src(st.value).startswith('raChunkMin[')]
